@@ -488,6 +488,8 @@ func (_this *Writer) WriteBigDecimalFloat(value *apd.Decimal) {
 		// trailing zeros the coefficient happens to carry.
 		var reduced apd.Decimal
 		reduced.Reduce(value)
+		// Reduce turns negative zero into zero
+		reduced.Negative = value.Negative
 		var buff [64]byte
 		used := reduced.Append(buff[:0], 'g')
 		_this.WriteBytesNotLF(used)
